@@ -18,9 +18,10 @@ def gen_prepare(ctx, theorems: list[str], covers: str):
     names = ["Art.GenSpec." + t for t in theorems]
     ctx.extra_audit["obligations"] += len(names)
     ctx.trusted.append("source-to-Lean translators harness/artv/ktrans.py (straight-line kernels, decision tables) and "
-                       "harness/artv/ctrans.py (statements: BaseART.step_fit with its while loop, inlined add_weight / set_weight / "
-                       "_set_params / _deep_copy_params); Python AST -> Lean definitions, regenerated on every run, fail closed on "
-                       "unsupported syntax; covers " + covers)
+                       "harness/artv/ctrans.py (statements: BaseART.step_fit / step_pred / predict / partial_fit / fit with their loops, "
+                       "inlined add_weight / set_weight / _set_params / _deep_copy_params / hooks; dropped: the guard calls "
+                       "validate_data, check_dimensions, check_is_fitted, the write-only flag is_fitted_, tqdm, the unused y); "
+                       "Python AST -> Lean definitions, regenerated on every run, fail closed on unsupported syntax; covers " + covers)
     with open(LEAN_DIR / ".gen.lock", "w") as lock:
         fcntl.flock(lock, fcntl.LOCK_EX)
         try:
